@@ -43,6 +43,17 @@ def find_accessors(repo):
     return out, unknown
 
 
+def raw_pointer_ctors(repo):
+    """Syntactic guard (NOT a solver verdict): every constructor of a raw-pointer Reference variant must be `unsafe fn`."""
+    src = open(os.path.join(repo, "src", "reference.rs")).read()
+    bad = []
+    for m in re.finditer(r"pub (const )?(unsafe )?fn (from_ptr\w*)\(", src):
+        if not m.group(2):
+            bad.append("reference.rs:%d %s is not an unsafe fn" % (src[:m.start()].count("\n") + 1, m.group(3)))
+    n = len(re.findall(r"pub (?:const )?unsafe fn from_ptr\w*\(", src))
+    return bad, n
+
+
 def dangle_fn(acc, template):
     name = "c16_dangle_%s_%s_%s" % (acc["type"].lower(), acc["fn"], template)
     call = "dev.%s(%s)" % (acc["fn"], acc["arg"])
@@ -90,6 +101,7 @@ DEREF = r"dereference failure"
 
 def spec(ctx):
     accs, unknown = find_accessors(core.REPO)
+    raw_bad, raw_n = raw_pointer_ctors(core.REPO)
     # PIDWrapper: CBMC's symex of the wrapper's Rc<RefCell<dyn ...>> graph teardown did not terminate in 15 min (measured);
     # its accessor is the same lifetime-extending cast, but it is not decided by the solver and is excluded from the claim
     skipped = [a for a in accs if a["type"] == "PIDWrapper"]
@@ -114,13 +126,13 @@ def spec(ctx):
         hs.append(Harness(name, "e1", unwind=5, timeout=400, clause="safe program: take terminal reference, end the device's life, read through it (CBMC dead-object / freed-object checks)"))
     return {
         "crates": [{"rust": rust, "harnesses": hs}],
-        "problems": ["accessor on a type the generator has no constructor for: " + u for u in unknown],
+        "problems": ["accessor on a type the generator has no constructor for: " + u for u in unknown] + ["raw-pointer constructor callable from safe code: " + b for b in raw_bad],
         "functions": ["SumStream::get", "ProductStream::get", "Getter<State> for Terminal", "Axle::new"] + ["%s::%s (%s)" % (a["type"], a["fn"], a["where"]) for a in accs],
         "bounds": {"arity": ar, "axle sizes": [1, 2, 3, 5], "program templates for the lifetime clause": templates, "accessors found": len(accs)},
         "assumptions": ["CBMC models a read of never-written MaybeUninit memory as a nondeterministic value (calibrated: cal_uninit_is_nondet)",
                         "CBMC's dead-object / deallocated-object pointer checks"],
         "not_decided": ["'no safe program' beyond the fixed program templates (a statement about the type checker)",
-                        "'raw-pointer Reference variants only constructible through unsafe' (API-surface fact, not a solver question)",
+                        "'raw-pointer Reference variants only constructible through unsafe': not a solver question; guarded syntactically by the generator (%d `unsafe fn from_ptr*` constructors found; a safe one makes the check exit 2)" % raw_n,
                         "the lifetime clause for PIDWrapper::get_terminal (symex of the Rc/dyn graph teardown does not terminate within 15 min)" if skipped else "",
                         "arities 7 and 8; axle sizes 4, 6..8; axle size 0 (CBMC cannot resolve the pointer comparison that ends iteration over a zero-length array, so symex does not terminate within the unwinding bound)"],
     }
